@@ -363,7 +363,10 @@ LEVEL_TEXT = ("Proof: Properties/C09.v states over a Gallina model of the setter
               "sections, comparing bytes, all getters and Data() before/after.")
 LEVEL_NOTE = "Trusted: as C08, plus the by-value rendering of the pointer-based setter API (Model/ScteEnc.v)."
 TECHNIQUE = "Coq proof (encoder = serialiser, parser inverts serialiser, fold_left invariants) + model/implementation correspondence on setter histories"
-PARTIAL = "see Properties/C09.v: clauses named _partial list what is missing; Data() aliasing is only observed in goexec"
+PARTIAL = ("refuted on the code as it is (witnesses in Properties/C09.v, replayed as known findings): 0x7E for an untimed splice_time, "
+           "stale upidLen after MID()[j].SetUPID, pts_adjustment of splice_null dropped by the decoder; limits in `normal`: section_length "
+           "< 1024, no stuffing for byte identity; CRC stated against the transliterated ComputeCRC (C13 identifies it with CRC-32/MPEG-2); "
+           "Data() aliasing is only observed in goexec")
 
 
 def shrink(c):
